@@ -56,9 +56,10 @@ Eval(q) ==
 
 \* ---- the builder machine -------------------------------------------------------------------------------------------
 Size(q) == Prod(SemShape(q))
-LeafKinds == {"aff", "cadd", "perm", "flip", "ident", "scan"}
+LeafKinds == {"aff", "cadd", "cadd0", "perm", "flip", "ident", "scan"}
 MkLeaf(kind, id, s) ==
   CASE kind = "cadd" -> [k |-> "cadd", id |-> id, shape |-> s, cs |-> <<2>>]
+    [] kind = "cadd0" -> [k |-> "cadd", id |-> id, shape |-> s, cs |-> <<>>]        \* a scalar condition
     [] kind = "scan" -> [k |-> "scan", ids |-> <<id, id + 1>>, shape |-> s]
     [] OTHER -> [k |-> kind, id |-> id, shape |-> s]
 Init == /\ \E kind \in LeafKinds, s \in Shapes : p = MkLeaf(kind, 1, s)
@@ -108,10 +109,11 @@ WPartial == /\ CanWrap
                \/ Wrap([k |-> "partial", p |-> p, shape |-> <<2, 2>> \o s, idx |-> [kind |-> "tuple", i |-> 1, j |-> 0]])
 WReshape == /\ CanWrap
             /\ \E s \in Shapes : Prod(s) = Size(p) /\ s # SemShape(p) /\
-                 \E cs \in {None} \cup (IF SemCond(p) # None /\ Prod(SemCond(p)) = 2 THEN {<<1, 2>>, <<2, 1>>} ELSE {}) :
+                 \E cs \in {None} \cup (IF SemCond(p) # None /\ Prod(SemCond(p)) = 2 THEN {<<1, 2>>, <<2, 1>>} ELSE {})
+                                   \cup (IF SemCond(p) = <<>> THEN {<<1>>, <<1, 1>>} ELSE {}) :
                    Wrap([k |-> "reshape", p |-> p, shape |-> s, cs |-> cs])
 WEmbed == /\ CanWrap /\ SemCond(p) # None
-          /\ \E raw \in {<<3>>, <<2, 2>>} : Wrap([k |-> "embed", p |-> p, rawcs |-> raw])
+          /\ \E raw \in {<<3>>, <<2, 2>>, <<>>} : Wrap([k |-> "embed", p |-> p, rawcs |-> raw])
 \* constructions the constructors document as incompatible (Valid = FALSE); terminal
 WInvalid == /\ depth < MaxDepth /\ res.valid
             /\ LET s == SemShape(p)
